@@ -71,6 +71,8 @@ def main():
     one('decode_skip_done', r'if \(\*cls\.static_vptr != nullptr\) \{\s*\n\s*continue;', d, DEC)
     one('decode_specs_tail', r'\*specs\+\+ = \(uintptr_t\)method\.ambiguous;\s*\n\s*\*specs\+\+ = \(uintptr_t\)method\.not_implemented;', d, DEC)
     one('decode_dtbl_loop', r'while \(more\) \{\s*\n\s*more = !\(\*dtbl_iter & stop_bit\);\s*\n\s*auto spec_index = \*dtbl_iter & ~stop_bit;', d, DEC)
+    one('decode_publish_once', r'return r\.info->type == cls\.type;', d, DEC)
+    one('decode_publish_records', r'Policy::publish_vptrs\(records\.begin\(\), records\.end\(\)\);', d, DEC)
     one('decode_ss_count', r'auto slots_strides_count = 2 \* method\.arity\(\) - 1;', d, DEC)
 
     # ---- generator.hpp: cell sizes and the emitted struct
